@@ -266,6 +266,14 @@ func runC12(seed int64, tier string, sc *Script) map[string]any {
 		if err := fs1.Tag(ctx, root, "t"); err != nil {
 			panic(err)
 		}
+		// the destination directory may already hold older, longer versions of the files
+		stale := rng.Intn(2) == 0
+		if stale {
+			os.MkdirAll(wd2, 0o755)
+			os.WriteFile(filepath.Join(wd2, "one.bin"), append(append([]byte{}, single...), []byte("-STALE-TAIL-OF-AN-OLDER-VERSION")...), 0o644)
+			os.WriteFile(filepath.Join(wd2, "dup1"), append(append([]byte{}, dup...), []byte("-STALE")...), 0o644)
+			sc.Count("destination:stale-files")
+		}
 		fs2, err := file.New(wd2)
 		if err != nil {
 			panic(err)
